@@ -59,6 +59,12 @@ CLAIMED = {
     "C16": ("buffers from the real compute_fixed_resolution_buffer vs. brute-force nearest-pixel resampling; every request repeated with and without cache_id over request histories",
             T % "pairs of datasets linked by affine pixel maps, value and mask requests, histories of requests sharing a cache id, and image-viewer layer states.",
             N % "the known affine map as ground truth; .5 ties accept either neighbour", "5/C16"),
+    "C17": ("structural invariants evaluated after every call of the Data mutation API + hub message log reconciled with the observed change",
+            T % "random histories over add/remove/reorder/rename/update_id/update_components/update_values_from_data/coords with valid and invalid arguments, on datasets without hub, with a bare hub, in a collection and with a linked sibling; after every call the invariant list is evaluated literally and the multiset of hub messages is compared with the documented one; a raising call must leave state and message log unchanged.",
+            N % "the operation -> expected messages table derived from the docstrings", "5/C17"),
+    "C18": ("layer / picker mirror invariants evaluated at every quiescent point of viewer histories on the four headless matplotlib viewers, incl. save+restore",
+            T % "histories of collection, component, subset-group and viewer operations, picker filter flips and explicit selections on real Simple{Histogram,Scatter,Image,Profile}Viewer objects (Agg backend) inside a recording Application subclass; set-based expected layers and an independent re-statement of the picker filters.",
+            N % "the set-based layer model and the re-stated picker filter; Qt/Jupyter front-ends are not covered", "5/C18"),
     "C19": ("export with the real exporters, reload with the matching factory, compare components/rows/pixels",
             T % "generated tables and images (float/int/string columns, NaN, subsets empty/proper/full) through CSV, FITS table, VO table, HDF5, gridded FITS, and sessions saved by reference.",
             N % "format conventions for masked-out pixels are tallied, not judged", "5/C19"),
@@ -67,7 +73,7 @@ CLAIMED = {
             N % "definitions written with Python ranges / numpy indexing", "5/C20"),
 }
 NOT_YET = {}
-READY = ['C01', 'C03', 'C04', 'C05', 'C06', 'C07', 'C08', 'C09', 'C10', 'C11', 'C13', 'C14', 'C15', 'C16', 'C19', 'C20']
+READY = ['C%02d' % i for i in range(1, 21)]
 
 
 def build():
